@@ -54,7 +54,7 @@ func RuleU1(c *Ctx) {
 			pos := c.P.Pos(call.Pos())
 			// scanner library-length helper?
 			if merr == nil {
-				if obj, ok := info.Defs[fd.Name].(*types.Func); ok && m.IsLibLenFunc(obj) {
+				if obj, ok := info.Defs[fd.Name].(*types.Func); ok && (m.IsLibLenFunc(obj) || (m.FuncsSeen[fd.Name.Name] && asksLibLength(info, fd, m.IsLibLenFunc))) {
 					sc.Holds(key, pos, "scanner length helper: runs only after at least one byte was consumed (checked on the automaton by S1d)")
 					return true
 				}
@@ -490,4 +490,31 @@ func (c *Ctx) u1CallersTest(pk *pkgT, fd *ast.FuncDecl, lenOf ast.Expr, k int64)
 		}
 	}
 	return fmt.Sprintf("the value is a parameter and all %d callers test its length first", len(sites)), true
+}
+
+// asksLibLength: a function modelled by the scanner automaton that asks the library for a
+// length itself: it calls a library-length helper, or a function-typed parameter of the
+// (length, error) shape.
+func asksLibLength(info *types.Info, fd *ast.FuncDecl, isLibLen func(*types.Func) bool) bool {
+	hit := false
+	ast.Inspect(fd.Body, func(n ast.Node) bool {
+		call, ok := n.(*ast.CallExpr)
+		if !ok {
+			return true
+		}
+		if g := Callee(info, call); g != nil && isLibLen(g) {
+			hit = true
+		}
+		if id, ok := ast.Unparen(call.Fun).(*ast.Ident); ok {
+			if v, ok := info.ObjectOf(id).(*types.Var); ok {
+				if sig, ok := v.Type().Underlying().(*types.Signature); ok && sig.Results().Len() == 2 {
+					if b, ok := sig.Results().At(0).Type().Underlying().(*types.Basic); ok && b.Info()&types.IsInteger != 0 {
+						hit = true
+					}
+				}
+			}
+		}
+		return true
+	})
+	return hit
 }
